@@ -343,6 +343,7 @@ func runLive(s liveScn) (sig, msg string) {
 		sr     *streamReader
 		eof    int32
 		backOK int32
+		closed int32 // the server connection's close callbacks have run: nothing more will be offered
 		werr   atomic.Value
 	}
 	var mu sync.Mutex
@@ -370,6 +371,8 @@ func runLive(s liveScn) (sig, msg string) {
 			byIdx[idx] = st
 			mu.Unlock()
 			atomic.AddInt32(&accepted, 1)
+			stc := st
+			conn.AddCloseCallback(func(Connection) error { atomic.StoreInt32(&stc.closed, 1); return nil })
 			if c.Back > 0 {
 				go func() {
 					if err := writeStream(conn, liveBackBase+idx*(16<<20), c.Back, c.Chunks, c.APIs); err != nil {
@@ -472,6 +475,9 @@ func runLive(s liveScn) (sig, msg string) {
 			mu.Lock()
 			st := byIdx[i]
 			mu.Unlock()
+			if cs.werr == nil && st != nil && atomic.LoadInt32(&st.closed) == 1 && int(atomic.LoadInt64(&st.sr.got)) < s.Conns[i].Total {
+				continue // terminal: reported below as data lost before end-of-stream
+			}
 			if cs.werr == nil && (st == nil || int(atomic.LoadInt64(&st.sr.got)) < s.Conns[i].Total || atomic.LoadInt32(&st.backOK) == 0) {
 				return false
 			}
@@ -495,6 +501,9 @@ func runLive(s liveScn) (sig, msg string) {
 		st := byIdx[i]
 		if st.sr.bad != "" {
 			return "server-stream", fmt.Sprintf("conn %d (client->server): %s", i, st.sr.bad)
+		}
+		if atomic.LoadInt32(&st.closed) == 1 && int(atomic.LoadInt64(&st.sr.got)) < c.Total {
+			return "data-lost-before-eof", fmt.Sprintf("conn %d: the client flushed %d bytes and then closed; the server's close callbacks ran after its handler had been offered only %d of them (one read step per call: %v)", i, c.Total, st.sr.got, c.OneStep)
 		}
 		if e, _ := st.werr.Load().(string); e != "" {
 			return "server-write-error", fmt.Sprintf("conn %d: server write failed: %s", i, e)
@@ -1361,7 +1370,7 @@ type fdScn struct {
 	Steps []string `json:"steps"`
 }
 
-var fdStepKinds = []string{"dial-regfail", "dial-tcp", "dial-unix", "dial-refused", "dial-timeout", "server-tcp", "server-unix", "fdconn", "detach", "manager", "listener-create", "concurrent-close"}
+var fdStepKinds = []string{"dial-family", "dial-bindfail", "dial-unix-bindfail", "dial-regfail", "dial-tcp", "dial-unix", "dial-refused", "dial-timeout", "server-tcp", "server-unix", "fdconn", "detach", "manager", "listener-create", "concurrent-close"}
 
 func censusKinds() map[string]int {
 	m := map[string]int{}
@@ -1423,6 +1432,40 @@ func runFDStep(kind string) string {
 		if c, err := DialConnection("tcp", addr, 200*time.Millisecond); err == nil {
 			c.Close()
 		}
+	case "dial-family":
+		// tcp4 with an IPv6 remote address: the dial fails while converting the address, after socket()
+		ctx, cancel := context.WithTimeout(context.Background(), time.Second)
+		if c, err := DialTCP(ctx, "tcp4", nil, &TCPAddr{TCPAddr: net.TCPAddr{IP: net.IPv6loopback, Port: 9}}); err == nil && !connIsNil(c) {
+			c.Close()
+		}
+		cancel()
+	case "dial-bindfail":
+		// the local address is not an address of this host: bind fails after socket()
+		ln, addr, err := e3Listen("tcp4")
+		if err != nil {
+			return ""
+		}
+		if raddr, err := ResolveTCPAddr("tcp", addr); err == nil {
+			ctx, cancel := context.WithTimeout(context.Background(), time.Second)
+			if c, err := DialTCP(ctx, "tcp", &TCPAddr{TCPAddr: net.TCPAddr{IP: net.IPv4(192, 0, 2, 1)}}, raddr); err == nil && !connIsNil(c) {
+				c.Close()
+			}
+			cancel()
+		}
+		ln.Close()
+	case "dial-unix-bindfail":
+		// the local path already exists: bind fails after socket()
+		ln, addr, err := e3Listen("unix")
+		if err != nil {
+			return ""
+		}
+		if raddr, err := ResolveUnixAddr("unix", addr); err == nil {
+			if c, err := DialUnix("unix", raddr, raddr); err == nil && !connIsNil(c) {
+				c.Close()
+			}
+		}
+		ln.Close()
+		os.Remove(addr)
 	case "dial-regfail":
 		// a dial whose connect succeeds but whose registration with the poller fails: the steps of DialTCP,
 		// with the descriptor added to every poller's epoll set beforehand so that EPOLL_CTL_ADD returns EEXIST
@@ -1982,12 +2025,76 @@ func runCloseRace(network string, closers int, payload int) string {
 	return ""
 }
 
+// runBlockedWrite: one writer stuck in a partial flush (the peer never reads), any number of closers, and
+// optionally a user close callback that takes a while (it runs before netpoll's own finalizer).
+func runBlockedWrite(payload, closers, delayUS, cbSleepUS, api int, wtimeoutMS int) string {
+	e3Init()
+	var fds [2]int
+	fds, err := syscall.Socketpair(syscall.AF_UNIX, syscall.SOCK_STREAM, 0)
+	if err != nil {
+		return ""
+	}
+	syscall.SetsockoptInt(fds[0], syscall.SOL_SOCKET, syscall.SO_SNDBUF, 4096)
+	c, err := NewFDConnection(fds[0])
+	if err != nil {
+		syscall.Close(fds[0])
+		syscall.Close(fds[1])
+		return ""
+	}
+	if cbSleepUS > 0 {
+		c.AddCloseCallback(func(Connection) error {
+			time.Sleep(time.Duration(cbSleepUS) * time.Microsecond)
+			return nil
+		})
+	}
+	if wtimeoutMS > 0 {
+		c.SetWriteTimeout(time.Duration(wtimeoutMS) * time.Millisecond)
+	}
+	var wg sync.WaitGroup
+	var started int32
+	p := keyedBytes(0, payload)
+	wg.Add(1)
+	go func() { // the one writer
+		defer wg.Done()
+		atomic.StoreInt32(&started, 1)
+		switch api {
+		case 0:
+			c.Write(p)
+		case 1:
+			if b, err := c.Writer().Malloc(payload); err == nil {
+				copy(b, p)
+				c.Writer().Flush()
+			}
+		default:
+			c.Writer().WriteBinary(p)
+			c.Writer().Flush()
+		}
+	}()
+	for k := 0; k < closers; k++ {
+		wg.Add(1)
+		k := k
+		go func() {
+			defer wg.Done()
+			// Close lands while the writer is copying, sending or waiting, depending on the delay
+			for atomic.LoadInt32(&started) == 0 {
+				runtime.Gosched()
+			}
+			time.Sleep(time.Duration(delayUS*(k+1)) * time.Microsecond)
+			c.Close()
+		}()
+	}
+	wg.Wait()
+	c.Close()
+	syscall.Close(fds[1])
+	return ""
+}
+
 func TestVerifC19(t *testing.T) {
 	st := newStats("C19")
 	defer st.write()
 	Initialize()
 	rapid.Check(t, func(t *rapid.T) {
-		kind := rapid.SampledFrom([]string{"bulk", "bulk", "shutdown", "dial", "pool", "closerace", "closerace", "fdsteps"}).Draw(t, "workload")
+		kind := rapid.SampledFrom([]string{"bulk", "bulk", "shutdown", "dial", "pool", "closerace", "closerace", "blockedwrite", "blockedwrite", "fdsteps"}).Draw(t, "workload")
 		st.eval()
 		roles := kind
 		switch kind {
@@ -2027,6 +2134,15 @@ func TestVerifC19(t *testing.T) {
 			pl := rapid.SampledFrom([]int{1, 100, 5000, 70000}).Draw(t, "payload")
 			runCloseRace(nw, k, pl)
 			roles = fmt.Sprintf("closerace/%s/%d/%d", nw, k, pl)
+		case "blockedwrite":
+			pl := rapid.SampledFrom([]int{100000, 1 << 20, 4 << 20}).Draw(t, "payload")
+			k := rapid.IntRange(1, 3).Draw(t, "closers")
+			dl := rapid.SampledFrom([]int{0, 50, 300, 1000, 3000}).Draw(t, "delay")
+			cb := rapid.SampledFrom([]int{0, 5000, 50000}).Draw(t, "cbsleep")
+			api := rapid.SampledFrom([]int{0, 0, 1, 2}).Draw(t, "api") // Write checks the state before it copies: the wide window
+			wt := rapid.SampledFrom([]int{0, 0, 1, 50}).Draw(t, "wtimeout")
+			runBlockedWrite(pl, k, dl, cb, api, wt)
+			roles = fmt.Sprintf("blockedwrite/%d/%d/%d/%d/%d/%d", pl, k, dl, cb, api, wt)
 		case "fdsteps":
 			for i, n := 0, rapid.IntRange(1, 3).Draw(t, "n"); i < n; i++ {
 				k := rapid.SampledFrom(fdStepKinds).Draw(t, "step")
